@@ -259,6 +259,8 @@ def exp_paths(ctx, rng, root, k):
         msg = str(e)
         kind = 'mixed' if "mix" in msg else 'duplicate' if 'uplicate' in msg else 'bad-index' if 'invalid literal' in msg else 'other:' + msg[:60]
         real = ('err', kind)
+    except Exception as e:      # noqa: BLE001 - anything else is an observation, not a harness failure
+        real = ('err', 'other:%s:%s' % (type(e).__name__, str(e)[:60]))
     ctx.count('paths:' + (real[1] if real[0] == 'err' else 'ok'))
     if foreign or dup:
         if real[0] != 'err':
@@ -357,9 +359,9 @@ def run(ctx):
     for c in boundary_cases():
         ctx.count('boundary')
         run_case(ctx, pool, c)
-    for k in range(ctx.pick(150, 1500)):
+    for k in range(ctx.pick(150, 1000)):
         exp_paths(ctx, rng, root, k % 7)
-    ncat = ctx.pick(5, 45)
+    ncat = ctx.pick(5, 38)
     recipes = []
     for k in range(ncat):
         recipe = cx.draw_cat_recipe(rng, shape=None if k % 3 else 'random')
